@@ -21,7 +21,7 @@ class C14(Check):
     SHRINK = False
     RULE = ('three streams: (1) mostly-valid specification texts from the renderer (all spellings, intervals with units / constants / begin > end / undeclared '
             'bound constants, undeclared identifiers, several assertions; bounds replaced by identifiers naming a constant, a signal, the specification itself or nothing); (2) token soup: valid texts with tokens deleted, duplicated, swapped, inserted, '
-            'truncated, and random token sequences; (3) character pollution: illegal characters, hex/binary literals, unterminated comments, empty text; '
+            'truncated, and random token sequences; (3) declarations (const / variable declarations with every literal form, judged by outcome class only: never an exception other than RTAMTException); (4) character pollution: illegal characters, hex/binary literals, unterminated comments, empty text; '
             'each parse under a wall-clock limit; outcome class (ok / RTAMTException / other exception / timeout) and, when accepted, the AST are compared with '
             'the model lexer+parser+visitor checks (Lexer.v, Parser.v, Elab.v); non-trivial = text with >= 5 tokens; distinct by text')
 
@@ -41,7 +41,8 @@ class C14(Check):
                  'out = xa since[700us:5] xb;', 'out = xa unless[1000ms:3000ms] xb;', 'out = xa until[1:3s] xb;', 'out = next[0,1] xa;', 'out = not[0,1] xa;', 'out = xa and[0,1] xb;', 'out = xa S[0,1] xb U[1,1] xa W[0,2] xb;',
                  # interval bounds that are identifiers: a declared constant, an unknown name, the name of a signal (declared, or implicitly declared by the operand)
                  'out = always[0:k1] (xa>=1);', 'out = always[0:xb] (xa>=1);', 'out = once[xa:5] (xa>=1);', 'out = (xa>=0) until[0:w] (w>=1);', 'out = eventually[xa ms:5 ms] (xa>=1);',
-                 'out = once[k1:k1] xa;', 'out = once[k1 s:3 s] xa;', 'out = once[out:3] xa;', 'a = xa >= 1; out = once[0:a] a;', 'out = historically[zz:zz] zz;']
+                 'out = once[k1:k1] xa;', 'out = once[k1 s:3 s] xa;', 'out = once[out:3] xa;', 'a = xa >= 1; out = once[0:a] a;', 'out = historically[zz:zz] zz;',
+                 'const int c1 = 0x2\nout = once[0:c1] xa;', 'const int c1 = 0x2\nout = xa >= c1;', 'const int c1 = 0b11\nout = xa >= c1;', 'const int c1 = 2\nout = once[0:c1] xa;']
         for t in fixed:
             cases.append({'text': t, 'stream': 'fixed'})
         valid = []
@@ -84,6 +85,18 @@ class C14(Check):
                 m = rng.choice(nums)
                 t = t[:m.start()] + ' ' + rng.choice(['k1', 'k1', 'xa', 'xb', 'zz', 'out']) + t[m.end():]
                 cases.append({'text': t, 'stream': 'bound-ident'})
+        # declarations in the text (outside the modelled fragment: only the outcome class 'never another exception type' is judged)
+        lits = ['2', '0x2', '0X1f', '0b11', '0B1', '1_0', '1.5', '1e3', '2.', '.5', '3E-2', '0', '00', '017', '1e400', '2 s', 'xa', 'k1', '-2', '(2)']
+        types = ['int', 'float', 'int', 'float', 'long', 'complex', 'real', 'bool', 'uint8']
+        for i in range(nvalid // 2):
+            nm = rng.choice(['c1', 'c1', 'c2', 'xa', 'k1', 'out'])
+            decl = 'const %s %s = %s' % (rng.choice(types), nm, rng.choice(lits)) + rng.choice(['', '', ';', '\n'])
+            if rng.random() < 0.2:
+                decl += '\nconst %s %s = %s' % (rng.choice(types), rng.choice(['c1', 'c2']), rng.choice(lits))
+            if rng.random() < 0.3:
+                decl = rng.choice(['input ', 'output ', '']) + rng.choice(types) + ' ' + rng.choice(['xa', 'xb', 'w']) + rng.choice(['', ';']) + '\n' + decl
+            use = rng.choice(['out = once[0:%s] (xa >= 1);', 'out = xa >= %s;', 'out = always[%s:%s] xa;', 'out = (xa + %s >= 0) since[%s:5] xb;', 'out = %s;'])
+            cases.append({'text': decl + '\n' + (use.replace('%s', nm)), 'stream': 'decl'})
         for i in range(nvalid // 3):
             toks = [rng.choice(SOUP) for _ in range(rng.randint(1, 12))]
             cases.append({'text': ' '.join(toks), 'stream': 'soup'})
